@@ -81,8 +81,8 @@ Proof.
   cbn [a11 a12 a13 a21 a22 a23 a31 a32 a33].
   gen_unfold. rewrite Ha. cbn [negb].
   destruct s as [U an lat]. cbn [st_lat st_U] in *. destruct lat as [l|]; cbn [lat_or] in *.
-  - dgm U. g_simpl. rm_simpl. field.
-  - dgm U. g_simpl. rm_simpl. unfold cart_lat. cbn [l_a l_b l_c l_ar l_br l_cr l_ca l_cb l_cg t0 t1 ROps]. field.
+  - dgm U. destruct Hs as [S1 [S2 S3]]. g_simpl. rm_simpl. subst. field.
+  - dgm U. destruct Hs as [S1 [S2 S3]]. g_simpl. rm_simpl. subst. unfold cart_lat. cbn [l_a l_b l_c l_ar l_br l_cr l_ca l_cb l_cg t0 t1 ROps]. field.
 Qed.
 
 Lemma iso_sym s : inv s -> gsym (iso_of s).
